@@ -7,7 +7,7 @@ set -e
 git -C $wt diff > /tmp/seed_$id/current.diff
 if ! diff -q $sd/current.diff $sd/patch.diff >/dev/null; then echo "NOTE: worktree diff differs from patch.diff (using worktree diff)"; cp $sd/current.diff $sd/patch.diff; fi
 demo=$(ls $sd/demo*.cpp | head -1)
-build_demo() { if grep -q "GOMP_task" $demo; then g++ -std=c++17 -O1 -fopenmp -I$wt/src -c $demo -o $sd/demo.o && g++ $sd/demo.o -o $sd/demo_bin; else g++ -std=c++17 -O1 -I$wt/src $demo -o $sd/demo_bin $2; fi; }
+build_demo() { if grep -q "GOMP_task" $demo; then g++ -std=c++17 -O1 -fopenmp -I$wt/src -c $demo -o $sd/demo.o && g++ $sd/demo.o -o $sd/demo_bin; else g++ -std=c++17 ${DEMO_OPT:--O1} -I$wt/src $demo -o $sd/demo_bin $DEMO_FLAGS; fi; }
 build_demo; set +e; timeout 600 $sd/demo_bin > $sd/demo_patched.out 2>&1; rc_patched=$?; set -e
 git -C $wt stash -q; build_demo; set +e; timeout 600 $sd/demo_bin > $sd/demo_clean.out 2>&1; rc_clean=$?; set -e; git -C $wt stash pop -q
 echo "demo: with change exit=$rc_patched, without exit=$rc_clean"
